@@ -56,6 +56,9 @@ pub fn install_panic_hook() {
     } else {
       "<non-string panic>".to_string()
     };
+    if std::env::var("PV_PANIC_TRACE").is_ok() {
+      eprintln!("panic at {loc}: {msg}");
+    }
     LAST_PANIC.with(|p| *p.borrow_mut() = Some((loc, msg)));
   }));
 }
@@ -215,6 +218,59 @@ impl Ctx {
   }
   pub fn quick(&self) -> bool {
     self.tier == Tier::Quick
+  }
+  /// Replay tier: re-executes every saved case of this property (`/verif/corpus/<id>/*.json`, minimal cases that once
+  /// exposed a defect, a seeded change or a mutant) through its sub-check, bypassing proptest. Cases that no longer
+  /// decode (the case type changed) are counted, not judged.
+  pub fn saved_cases(&self, subs: Vec<Box<dyn DynSub>>) {
+    if self.is_clock_child() {
+      return;
+    }
+    let dir = verif_dir().join("corpus").join(self.property);
+    let mut files: Vec<PathBuf> = match std::fs::read_dir(&dir) {
+      Ok(rd) => rd.filter_map(|e| e.ok().map(|e| e.path())).filter(|p| p.extension().map(|x| x == "json").unwrap_or(false)).collect(),
+      Err(_) => return,
+    };
+    files.sort();
+    let t0 = Instant::now();
+    let mut rep = SubReport { name: format!("{}/saved-cases", self.property), exhaustive: Some(true), ..Default::default() };
+    let mut undecodable = 0u64;
+    for f in &files {
+      let v: Value = match std::fs::read_to_string(f).ok().and_then(|t| serde_json::from_str(&t).ok()) {
+        Some(v) => v,
+        None => { undecodable += 1; continue; }
+      };
+      if v.get("clock").map(|c| !c.is_null()).unwrap_or(false) {
+        continue; // found under a set clock: only meaningful there (the clock children re-generate such cases)
+      }
+      let sub_name = v["sub"].as_str().unwrap_or("");
+      let sub = match subs.iter().find(|s| s.dyn_name() == sub_name) {
+        Some(s) => s,
+        None => { undecodable += 1; continue; }
+      };
+      match sub.check_json(&v["case"]) {
+        Ok(Verdict::Violation { sig, detail }) => {
+          rep.evaluations += 1;
+          rep.nontrivial.insert(hash_of(&f.display().to_string()));
+          if !rep.found.iter().any(|x| x.sig == sig) {
+            rep.found.push(Found { sub: sub_name.to_string(), sig, detail: format!("[saved case {}] {}", f.file_name().and_then(|n| n.to_str()).unwrap_or("?"), detail), case: v["case"].clone(), shrunk: true, clock: None });
+          }
+        }
+        Ok(_) => {
+          rep.evaluations += 1;
+          rep.nontrivial.insert(hash_of(&f.display().to_string()));
+          *rep.classes.entry(format!("saved:{sub_name}")).or_insert(0) += 1;
+          if rep.samples.len() < 2 {
+            rep.samples.push(json!({"file": f.file_name().and_then(|n| n.to_str()), "sub": sub_name, "first_found_as": v["signature"]}));
+          }
+        }
+        Err(_) => undecodable += 1,
+      }
+    }
+    rep.extra.insert("files".into(), json!(files.len()));
+    rep.extra.insert("no_longer_decodable".into(), json!(undecodable));
+    rep.wall_s = t0.elapsed().as_secs_f64();
+    self.reports.lock().unwrap().push(rep);
   }
   /// true in a child process that runs under a shifted wall clock (see `clock_children`)
   pub fn is_clock_child(&self) -> bool {
